@@ -894,6 +894,9 @@ class FrameVal:
         on every column of `subset` (NaN equal to NaN)."""
         if subset is None:
             raise Unsupported("DataFrame.duplicated() over all columns of a frame with unknown columns")
+        if not list(subset):
+            # pandas: DataFrame.duplicated(subset=[]) -> ValueError("not enough values to unpack (expected 2, got 0)")
+            cur().ghost["interp"].raise_py(ValueError, "not enough values to unpack (expected 2, got 0)")
         cols = [self.col_fn(c) for c in list(subset)]
 
         def at(i):
